@@ -1303,6 +1303,8 @@ pub fn parse_chunk_size(buf: &[u8])
                 size *= RADIX;
                 size += (b + 10 - b'A') as u64;
             }
+            // A chunk size needs at least one hex digit (`chunk-size = 1*HEXDIG`).
+            _ if count == 0 => return Err(InvalidChunkSize),
             b'\r' => {
                 match next!(bytes) {
                     b'\n' => break,
